@@ -117,6 +117,8 @@ SYMS = {
     'filter_rows': {'op': 'c06_filter'},
     'unpivot': S('unpivot', [{'name': 'u([12])', 'keys': {'un': r'\1'}}], [{'name': 'un', 'type': 'string'}],
                  {'name': 'uv', 'type': 'string'}),
+    # value columns stacked into one column without any key column
+    'unpivot_nokeys': S('unpivot', [{'name': 'u1', 'keys': {}}, {'name': 'u2', 'keys': {}}], [], {'name': 'uv', 'type': 'string'}),
     'concatenate': S('concatenate', {'_src': [], '_i': [], 's': []}, {'name': 'cc'}),
     'printer': S('printer', num_rows=1, header_print={'$fn': 'c06_sink', 'env': True},
                  table_print={'$fn': 'c06_sink', 'env': True}),
@@ -141,12 +143,12 @@ SYMS = {
 }
 CONTROL = {'sort_rows': S('sort_rows', '{_i}')}      # buffering step: the monitor's positive control
 SIGMA = list(SYMS)
-SOURCES = ['gen1', 'gen2', 'tuple1', 'tuple-limit', 'genlist', 'gen1-take10', 'tuple1-take10', 'gen1-badrow', 'sized1']
+SOURCES = ['gen1', 'gen2', 'tuple1', 'tuple-limit', 'genlist', 'gen1-take10', 'tuple1-take10', 'gen1-badrow', 'sized1', 'tuple-select']
 
 
 def run_one(srckind, path, n):
     """Returns ('ok', L list, pre list, delivered) or ('exc', e)."""
-    nsrc = 2 if srckind == 'gen2' else 1
+    nsrc = 2 if srckind in ('gen2', 'tuple-select') else 1
     mon = Monitor(nsrc)
     take10 = srckind.endswith('-take10')
     badrow = srckind.endswith('-badrow')
@@ -158,6 +160,11 @@ def run_one(srckind, path, n):
         if srckind in ('gen1', 'gen2'):
             for k in range(nsrc):
                 links.append(gen_source(mon, k, n))
+        elif srckind == 'tuple-select':
+            # a (descriptor, iterators) pair with two lazy resources of which only the second is requested
+            st = core.mkstate([('skipped', FIELDS, []), ('t', FIELDS, [])])
+            links.append(core.dataflows.load((copy.deepcopy(st.desc), iter([gen_source(mon, 0, n), gen_source(mon, 1, n)])),
+                                             resources='t'))
         elif srckind == 'sized1':
             links.append(LazySized(mon, 0, n))
         elif srckind == 'genlist':
